@@ -247,7 +247,7 @@ def sdf_jobs(Job, cfg=CFG_NDEBUG, tier="quick"):
 
 
 def c04_extra(Job, tier):
-    return mmb_jobs(Job) + sdf_jobs(Job) + dump_jobs(Job)
+    return mmb_jobs(Job) + sdf_jobs(Job) + dump_jobs(Job) + viewfile_jobs(Job)
 
 
 # ---- C16 extra: connect_drives ---------------------------------------------------------------------------------
@@ -255,7 +255,7 @@ def c16_extra(Job, tier):
     cfg = CFG_NDEBUG
     return [Job("D_connect_drives_%s" % cfg[0], "harness/dfs_storage.c", "h_connect", enforce=["connect_drives"],
                 replace=["check_sequence_fits", "SurfaceSelector_next"], loops=True, defines=list(cfg[1]),
-                extract=ext(STORAGE_GROUP + ["connect_drives"]), tier="quick", cover=True, solver="portfolio", timeout=900)]
+                extract=ext(STORAGE_GROUP + ["connect_drives"]), tier="quick", cover=True, solver="portfolio", timeout=900)] + viewfile_jobs(Job)
 
 
 # ---- C17 extra: Opus volume extents ----------------------------------------------------------------------------
@@ -450,3 +450,18 @@ def selector_jobs(Job, cfg=CFG_NDEBUG, tier="quick"):
                 defines=list(cfg[1]), extract=ext(g), tier=tier),
             Job("D_selector_parse_%s" % cfg[0], "harness/dfs_selector.c", "h_parse", enforce=["SurfaceSelector_parse"],
                 replace=["SurfaceSelector_coerce_long"], defines=list(cfg[1]), extract=ext(g), tier=tier, cover=True)]
+
+
+def viewfile_jobs(Job, cfg=CFG_NDEBUG, tier="quick"):
+    return [Job("D_viewfile_connect_drives_%s" % cfg[0], "harness/dfs_viewfile.c", "h_viewfile_connect", enforce=["ViewFile_connect_drives"],
+                loops=True, defines=list(cfg[1]), extract=ext(["ViewFile_connect_drives"]), tier=tier, cover=True)]
+
+
+def fsp_jobs(Job, cfg=CFG_NDEBUG, tier="quick"):
+    return [Job("D_parse_dir_and_name_%s" % cfg[0], "harness/dfs_fsp.c", "h_parse_dir_and_name", enforce=["parse_dir_and_name"],
+                defines=list(cfg[1]), extract=ext(["parse_dir_and_name"]), tier=tier,
+                cbmc=["--unwindset", "cstr_substr.0:17", "--unwinding-assertions"])]
+
+
+def c15_extra(Job, tier):
+    return fsp_jobs(Job)
